@@ -10,7 +10,10 @@ impl ActTask for Branch {
         let task = ctx.task();
         task.set_emit_disabled(true);
         if !self.needs.is_empty() {
-            task.set_state(TaskState::Pending);
+            // a needed sibling may already be finished: nobody would wake this branch up later
+            if !task.is_ready() {
+                task.set_state(TaskState::Pending);
+            }
             return Ok(());
         }
 
@@ -34,7 +37,9 @@ impl ActTask for Branch {
                     return Ok(());
                 }
 
-                if branch_count > 1 {
+                // wait for the siblings, unless they are all decided already: then nobody
+                // would wake this branch up later (is_ready skips it if one of them ran)
+                if branch_count > 1 && !task.is_ready() && !task.state().is_completed() {
                     task.set_state(TaskState::Pending);
                 }
 
